@@ -47,7 +47,7 @@ def conversion(model, b, fi, res):
         res.nontrivial += 1
         got = ev.nf(vals[nm])
         want = expr_nf(ev, formula, env)
-        if got is not NAN and want is not NAN and got.key() == want.key():
+        if got is not NAN and want is not NAN and ev.equal(got, want):
             res.discharged += 1
             res.sample({'rule': 'C18.conversion', 'quantity': nm, 'documented': formula, 'normal_form': got.key()[:120]})
         else:
